@@ -118,6 +118,31 @@ Proof.
 Qed.
 Print Assumptions ll1_reported_partial.
 
+(* the factorization is the identity when no two adjacent alternatives of a symbol
+   start with the same symbol (keys distinct, no reserved '__' names): then the
+   statement is about the user's grammar alone, for both smart values *)
+Theorem factorization_identity : forall ug terminals smart start p,
+  build ug terminals smart start = Ok p ->
+  no_reserved_names ug = true -> nodup_syms (map fst ug) = true -> no_common_prefix ug = true ->
+  p_grammar p = ugram ug /\ p_sfxs p = [].
+Proof. exact build_identity. Qed.
+Print Assumptions factorization_identity.
+
+Theorem ll1_reported_no_common_prefix : forall ug terminals smart start p,
+  build ug terminals smart start = Ok p ->
+  no_reserved_names ug = true -> nodup_syms (map fst ug) = true -> no_common_prefix ug = true ->
+  wf_grammar (ugram ug) (terminals ++ [END_TOKEN]) start = true ->
+  LL1 (ugram ug) (terminals ++ [END_TOKEN]) start ->
+  is_ambiguous (p_tables p) = false.
+Proof.
+  intros ug terminals smart start p HB H1 H2 H3 Hwf HL.
+  destruct (build_identity ug terminals smart start p HB H1 H2 H3) as [Hg _].
+  destruct (build_fields _ _ _ _ _ HB) as [_ [Ht [Hs _]]].
+  apply (ll1_reported_partial ug terminals smart start p HB); auto.
+  rewrite Hg, Ht, Hs. exact Hwf.
+Qed.
+Print Assumptions ll1_reported_no_common_prefix.
+
 (* whatever the factorization did: conflict-free <-> the factorized grammar is LL(1) *)
 Theorem ll1_reported_factorized : forall ug terminals smart start p,
   build ug terminals smart start = Ok p ->
@@ -264,6 +289,11 @@ Proof.
   intros [|]; eexists; (split; [vm_compute; reflexivity|]); vm_compute; repeat split.
 Qed.
 Print Assumptions ex_hypotheses.
+
+Example ex_no_common_prefix :
+  no_reserved_names ex_ug = true /\ nodup_syms (map fst ex_ug) = true /\ no_common_prefix ex_ug = true.
+Proof. vm_compute. auto. Qed.
+Print Assumptions ex_no_common_prefix.
 
 Example ex_ll1 : LL1 (ugram ex_ug) (ex_terms ++ [END_TOKEN]) xE.
 Proof. apply ll1_iff_not_ambiguous; vm_compute; reflexivity. Qed.
